@@ -473,7 +473,12 @@ fn load_toplevel_items_(
                     // import. We don't need to load the namespace
                     // again, but we do need to add the values to the
                     // current namespace.
-                    let imported_ns = env.get_namespace(&abs_path).unwrap();
+                    // There is no namespace if the file could not be
+                    // read or parsed the first time, which has
+                    // already been reported.
+                    let Some(imported_ns) = env.get_namespace(&abs_path) else {
+                        continue;
+                    };
                     insert_imported_namespace(
                         import_info.namespace_sym.as_ref(),
                         Rc::clone(&namespace),
